@@ -308,3 +308,51 @@ def check_node_bin_map(c):
     c.ensures(lambda: z3.Implies(c.result == 0, z3.And(nb >= 1, z3.ForAll([k], z3.Implies(
         z3.And(0 <= k, k < nn), z3.And(a[k] >= -1, z3.Or(nb > (1 << 31) - 1, a[k] < nb)))))), "accepted_bins_in_range")
     c.assigns()
+
+
+# ------------------------------------------------------------------------------------------ coalescence rates
+@contract("trees.c", "check_coalescence_rate_time_windows",
+          ["self", "num_sample_sets", "sample_set_sizes", "sample_sets", "num_time_windows", "node_time_window",
+           "time_windows"])
+def check_coalescence_rate_time_windows(c):
+    """C09: every member of the sample sets is checked against the node table before its time is read, and every
+    node's time window index is checked before the window bounds are read"""
+    self_, ns, szp, sp = c.arg("self"), c.arg("num_sample_sets"), c.arg("sample_set_sizes"), c.arg("sample_sets")
+    ntw, nwp, twp = c.arg("num_time_windows"), c.arg("node_time_window"), c.arg("time_windows")
+    h, E = c.old, c.E
+    c.requires(z3.Not(h.isnull(self_)))
+    t, ok = tables_of(h, self_)
+    c.requires(ok)
+    T = TC(h, t)
+    nn = T.nodes.n
+    c.requires(T.nodes.rep())
+    # what the extension passes: time_windows has num_time_windows + 1 entries, node_time_window one per node,
+    # sample_set_sizes one per set and sample_sets their total
+    c.requires(z3.And(ntw >= 0, ntw <= MAX_ROWS, z3.Not(h.isnull(twp)), twp.off == 0, h.len(twp) >= ntw + 1))
+    c.requires(z3.Implies(nn > 0, z3.And(z3.Not(h.isnull(nwp)), nwp.off == 0, h.len(nwp) >= nn)))
+    c.requires(z3.And(ns >= 0, ns <= MAX_ROWS))
+    c.requires(z3.Implies(ns > 0, z3.And(z3.Not(h.isnull(szp)), szp.off == 0, h.len(szp) >= ns)))
+    sizes = h.arr(szp)
+    c.requires(prefix_sums(sizes, ns))
+    c.requires(z3.ForAll([i], z3.Implies(z3.And(0 <= i, i < ns), z3.And(sizes[i] >= 0, sizes[i] <= MAX_ROWS))))
+    c.requires(psum(ns) <= MAX_ROWS)
+    c.requires(z3.Implies(psum(ns) > 0, z3.And(z3.Not(h.isnull(sp)), sp.off == 0, h.len(sp) >= psum(ns))))
+    sets = h.arr(sp) if sp.region is not None else None
+    nw = h.arr(nwp) if nwp.region is not None else None
+    good = (lambda q: in_ids(sets[q], nn)) if sets is not None else (lambda q: z3.BoolVal(True))
+    c.loop(0).invariant(lambda s: z3.And(0 <= s.i, s.i <= ntw, ntw > 0, s.ret == 0))
+    c.loop(1).invariant(lambda s: z3.And(0 <= s.i, s.i <= ns, s.k == psum(s.i), ntw > 0, s.ret == 0,
+                                         z3.ForAll([j], z3.Implies(z3.And(0 <= j, j < s.k), good(j)))))
+    c.loop(2).invariant(lambda s: z3.And(0 <= s.i, s.i < ns, 0 <= s.j, s.j <= sizes[s.i], s.k == psum(s.i) + s.j, ntw > 0, s.ret == 0,
+                                         z3.ForAll([j], z3.Implies(z3.And(0 <= j, j < s.k), good(j)))))
+    binok = (lambda q: z3.Or(nw[q] < 0, nw[q] < ntw)) if nw is not None else (lambda q: z3.BoolVal(True))
+    c.loop(3).invariant(lambda s: z3.And(0 <= s.i, s.i <= nn, ntw > 0, s.ret == 0,
+                                         z3.ForAll([j], z3.Implies(z3.And(0 <= j, j < psum(ns)), good(j))),
+                                         z3.ForAll([j], z3.Implies(z3.And(0 <= j, j < s.i), binok(j)))))
+    c.ensures(lambda: z3.Implies(c.result == 0, z3.And(
+        ntw > 0, z3.ForAll([j], z3.Implies(z3.And(0 <= j, j < psum(ns)), good(j))),
+        z3.ForAll([j], z3.Implies(z3.And(0 <= j, j < nn), binok(j))))), "accepted_ids_and_bins_in_range")
+    c.ensures(lambda: z3.Or(c.result == 0, c.result == E.TSK_ERR_BAD_TIME_WINDOWS_DIM, c.result == E.TSK_ERR_BAD_TIME_WINDOWS,
+                            c.result == E.TSK_ERR_NODE_OUT_OF_BOUNDS, c.result == E.TSK_ERR_BAD_SAMPLE_PAIR_TIMES,
+                            c.result == E.TSK_ERR_BAD_NODE_BIN_MAP_DIM, c.result == E.TSK_ERR_BAD_NODE_TIME_WINDOW), "codes")
+    c.assigns()
